@@ -1168,3 +1168,88 @@ func TestJ2KFields(t *testing.T) {
 	}
 	core.ExhaustiveDone("every COD / QCD field of every JPEG 2000 pool stream over its semantic range, one field at a time (all 128 code-block style bytes)", int64(n))
 }
+
+// TestTilePartHeaders inserts every kind of marker segment that may appear in a tile-part
+// header (COD, COC, QCD, QCC, RGN, POC, PLT, PPT, COM) into each tile-part header of each
+// JPEG 2000 pool stream, with and without the tile-part length adjusted. The library's encoders
+// never write tile-part header segments, so the merge code for them (first tile-part without,
+// later tile-part with a segment; repeated segments) is reached only this way.
+func TestTilePartHeaders(t *testing.T) {
+	shard, shards := core.EnvInt("VERIF_SHARD", 0), max(1, core.EnvInt("VERIF_SHARDS", 1))
+	n := 0
+	names := make([]string, 0, len(pool))
+	for _, it := range pool {
+		names = append(names, it.Name)
+	}
+	sort.Strings(names)
+	for _, name := range names {
+		it := byName[name]
+		if it.Family != "j2k" {
+			continue
+		}
+		j, err := walk.WalkJ2K(it.Data)
+		if err != nil || len(j.Parts) == 0 {
+			continue
+		}
+		var cod, qcd []byte
+		for _, s := range j.Main {
+			switch s.Marker {
+			case 0xFF52:
+				cod = s.Payload
+			case 0xFF5C:
+				qcd = s.Payload
+			}
+		}
+		if len(cod) < 10 || len(qcd) < 2 {
+			continue
+		}
+		seg := func(m byte, p []byte) []byte {
+			l := len(p) + 2
+			return append([]byte{0xFF, m, byte(l >> 8), byte(l)}, p...)
+		}
+		kinds := []struct {
+			name string
+			b    []byte
+		}{
+			{"COD", seg(0x52, cod)}, {"COC", seg(0x53, append([]byte{0, 0}, cod[5:10]...))}, {"QCD", seg(0x5C, qcd)}, {"QCC", seg(0x5D, append([]byte{0}, qcd...))},
+			{"QCC1", seg(0x5D, append([]byte{byte(max(0, j.Csiz-1))}, qcd...))}, {"RGN", seg(0x5E, []byte{0, 0, 3})}, {"POC", seg(0x5F, []byte{0, 0, 0, 1, 1, 1, 0})},
+			{"PLT", seg(0x58, []byte{0, 1})}, {"PPT", seg(0x61, []byte{0, 0})}, {"COM", seg(0x64, []byte{0, 1, 'x'})},
+		}
+		entries := it.Entries[:min(2, len(it.Entries))]
+		for pi, tp := range j.Parts {
+			if pi >= 6 {
+				break
+			}
+			at := tp.Off + 12
+			if at > len(it.Data) {
+				continue
+			}
+			for _, k := range kinds {
+				for fix := 0; fix < 2; fix++ {
+					for _, e := range entries {
+						n++
+						if n%shards != shard {
+							continue
+						}
+						in := append(append(append([]byte(nil), it.Data[:at]...), k.b...), it.Data[at:]...)
+						if fix == 1 && tp.Psot != 0 {
+							v := uint32(tp.Psot + len(k.b))
+							in[tp.Off+6], in[tp.Off+7], in[tp.Off+8], in[tp.Off+9] = byte(v>>24), byte(v>>16), byte(v>>8), byte(v)
+						}
+						inf := it.Info
+						c := &Case{Entry: e, Parent: it.Name, Muts: []string{fmt.Sprintf("tphdr:%s@part%d,psot%d", k.name, pi, fix)}, Input: in, Info: &inf}
+						if len(e) < 6 || e[:6] != "codec:" {
+							c.Info = nil
+						}
+						o := Check(c)
+						if o.Fail != nil {
+							core.Eval(t, ID, "exhaustive", c, Check)
+						}
+						core.RecordLight(uint64(n)<<8|5, o.NonTrivial, "enum-tilepart-header")
+					}
+				}
+			}
+		}
+	}
+	core.ExhaustiveDone("each tile-part header segment kind (COD COC QCD QCC RGN POC PLT PPT COM) inserted into each tile-part header of each JPEG 2000 pool stream, with and without Psot adjusted", int64(n))
+}
